@@ -229,6 +229,11 @@ def arith(sym, a, b):
             return x
     if a is UNDEF or b is UNDEF:
         return UNDEF
+    for x in (a, b):
+        if isinstance(x, int) and abs(x) > 2 ** 1023:
+            # exact integers beyond (or at the edge of) the double range:
+            # Excel has none, the library keeps some; not pinned down
+            return UNDEF
     try:
         if sym == '+':
             return a + b
@@ -252,7 +257,13 @@ def power(a, b):
         return UNDEF            # 0^0, 0^-1: not asserted here (C16 owns it)
     if a < 0 and b != int(b):
         return UNDEF
-    # keep big-integer towers bounded
+    if isinstance(a, int) and isinstance(b, int) and b > 0 and abs(a) > 1 \
+            and b * math.log2(abs(a)) >= 1024:
+        # beyond the range of a double: #NUM! (the count still tells the
+        # generators how many such towers they produced)
+        BIG[0] += 1
+        return NUM
+    # keep big towers bounded
     if a not in (0, 1, -1) and abs(b) * math.log2(abs(a) if a else 1) > 20000:
         BIG[0] += 1
         return UNDEF
@@ -260,7 +271,9 @@ def power(a, b):
         return a ** b
     try:
         r = float(a) ** float(b)
-    except (OverflowError, ZeroDivisionError):
+    except OverflowError:
+        return NUM
+    except ZeroDivisionError:
         return UNDEF
     if isinstance(r, complex):
         return UNDEF
